@@ -1086,8 +1086,10 @@ func genFunctionWrapper(n *node) func(*frame) reflect.Value {
 	numRet := len(def.typ.ret)
 	var rcvr func(*frame) reflect.Value
 
+	late := false
 	if n.recv != nil {
 		rcvr = genValueRecv(n)
+		late = n.recv.node == nil
 	}
 	funcType := n.typ.TypeOf()
 
@@ -1105,10 +1107,9 @@ func genFunctionWrapper(n *node) func(*frame) reflect.Value {
 			return v
 		}
 
-		var recv reflect.Value
-		if rcvr != nil {
-			// The method receiver is evaluated with the method value, not when the
-			// function is called: the variable it is read from may change meanwhile.
+		// bindRecv returns the method receiver, reached from the value the method is
+		// selected on: a value receiver is copied, a pointer receiver addresses it.
+		bindRecv := func() reflect.Value {
 			src := rcvr(f)
 			sk, dk := src.Kind(), def.types[numRet].Kind()
 			for {
@@ -1121,12 +1122,19 @@ func genFunctionWrapper(n *node) func(*frame) reflect.Value {
 			}
 			switch {
 			case sk == reflect.Ptr && dk != reflect.Ptr:
-				recv = copyDeferArg(src.Elem())
+				return copyDeferArg(src.Elem())
 			case sk != reflect.Ptr && dk == reflect.Ptr:
-				recv = src.Addr()
+				return src.Addr()
 			default:
-				recv = copyDeferArg(src)
+				return copyDeferArg(src)
 			}
+		}
+
+		var recv reflect.Value
+		if rcvr != nil && !late {
+			// The method receiver is evaluated with the method value, not when the
+			// function is called: the variable it is read from may change meanwhile.
+			recv = bindRecv()
 		}
 
 		return reflect.MakeFunc(funcType, func(in []reflect.Value) []reflect.Value {
@@ -1137,9 +1145,15 @@ func genFunctionWrapper(n *node) func(*frame) reflect.Value {
 				d[i] = reflect.New(t).Elem()
 			}
 
-			if rcvr == nil {
+			switch {
+			case rcvr == nil:
 				d = d[numRet:]
-			} else {
+			case late:
+				// Method of the value held by an interface: a pointer in the path to the
+				// receiver is dereferenced at each call.
+				d[numRet].Set(bindRecv())
+				d = d[numRet+1:]
+			default:
 				// Copy method receiver as first argument.
 				d[numRet].Set(recv)
 				d = d[numRet+1:]
@@ -1218,6 +1232,9 @@ func genInterfaceWrapper(n *node, typ reflect.Type) func(*frame) reflect.Value {
 		if vi, ok := v.Interface().(valueInterface); ok {
 			n2 = vi.node
 		}
+		// The interface holds a copy of v: the receiver of a method is reached from it
+		// when the method is called, a pointer in the path sees the changes of its target.
+		rv := copyDeferArg(valueInterfaceValue(v))
 		v = getConcreteValue(v)
 		w := reflect.New(wrap).Elem()
 		w.Field(0).Set(v)
@@ -1235,14 +1252,14 @@ func genInterfaceWrapper(n *node, typ reflect.Type) func(*frame) reflect.Value {
 				m2, i2 := n2.typ.lookupMethod(names[i])
 				if m2 != nil {
 					nod := *m2
-					nod.recv = &receiver{n, v, i2}
+					nod.recv = &receiver{val: rv, index: i2}
 					w.Field(i + 1).Set(genFunctionWrapper(&nod)(f))
 					continue
 				}
 				panic(n.cfgErrorf("method not found: %s", names[i]))
 			}
 			nod := *m
-			nod.recv = &receiver{n, v, indexes[i]}
+			nod.recv = &receiver{val: rv, index: indexes[i]}
 			w.Field(i + 1).Set(genFunctionWrapper(&nod)(f))
 		}
 		return w
